@@ -568,6 +568,12 @@ RETRY:
 		}
 		res := fullProof.MergeSparse(sparseProof)
 		allValidSignatures = allValidSignatures && res.AllValidSignatures
+		if !res.IncreasedSignatures {
+			// None of the offered signatures for this block verified;
+			// there is nothing to apply, and in particular
+			// no empty proof may be installed for a block we had no votes for.
+			continue
+		}
 		voteUpdates[blockHash] = tmi.VoteUpdate{
 			Proof:       fullProof,
 			PrevVersion: curPrevoteState.PrevoteBlockVersions[blockHash],
@@ -575,6 +581,11 @@ RETRY:
 	}
 
 	if len(voteUpdates) == 0 {
+		if !allValidSignatures {
+			// Every signature that was new to us failed verification.
+			return tmconsensus.HandleVoteProofsBadSignature
+		}
+
 		// We must have been unable to build the sign bytes or signature proof.
 		// Ignore the message for now.
 		return tmconsensus.HandleVoteProofsNoNewSignatures
@@ -926,6 +937,12 @@ RETRY:
 		}
 		res := fullProof.MergeSparse(sparseProof)
 		allValidSignatures = allValidSignatures && res.AllValidSignatures
+		if !res.IncreasedSignatures {
+			// None of the offered signatures for this block verified;
+			// there is nothing to apply, and in particular
+			// no empty proof may be installed for a block we had no votes for.
+			continue
+		}
 		voteUpdates[blockHash] = tmi.VoteUpdate{
 			Proof:       fullProof,
 			PrevVersion: curPrecommitState.PrecommitBlockVersions[blockHash],
@@ -933,6 +950,11 @@ RETRY:
 	}
 
 	if len(voteUpdates) == 0 {
+		if !allValidSignatures {
+			// Every signature that was new to us failed verification.
+			return tmconsensus.HandleVoteProofsBadSignature
+		}
+
 		// We must have been unable to build the sign bytes or signature proof.
 		// Ignore the message for now.
 		return tmconsensus.HandleVoteProofsNoNewSignatures
